@@ -7,7 +7,7 @@ UTF-8, boundary values); the real reader consumes it through the same kind of st
 tt.py hands it; whatever document comes back goes through the real ISD generator, the LCD
 filter and the three writers under seeded valid configurations.
 
-Every 120 consecutive run indices contain 8 *sweep* runs that together enumerate the complete
+Every 400 consecutive run indices contain 8 *sweep* runs that together enumerate the complete
 single-fault space (every truncation offset, 4 corruptions of every byte, every record
 drop / duplication / adjacent swap) of one small seeded file.
 """
@@ -46,11 +46,11 @@ ID = "C18"
 LEVEL = "fault_enumeration"
 SOFT_TIMEOUT = 20
 TIERS = {
-  "quick": {"runs": 3600, "hard_timeout": 60, "confirm_timeout": 120, "shrink_budget": 25, "shrink_total": 240, "det_sample": 30},
-  "thorough": {"runs": 36000, "hard_timeout": 90, "confirm_timeout": 120, "shrink_budget": 90, "shrink_total": 900, "det_sample": 120},
+  "quick": {"runs": 12000, "hard_timeout": 60, "confirm_timeout": 120, "shrink_budget": 25, "shrink_total": 240, "det_sample": 30},
+  "thorough": {"runs": 120000, "hard_timeout": 90, "confirm_timeout": 120, "shrink_budget": 90, "shrink_total": 900, "det_sample": 120},
 }
 FORMATS = ["srt", "vtt", "scc", "stl", "ttml"]
-SWEEP_PERIOD = 120
+SWEEP_PERIOD = 400
 SWEEP_CHUNKS = 8
 SWEEP_STRIDE = SWEEP_PERIOD // SWEEP_CHUNKS
 
@@ -301,7 +301,7 @@ def run_one(rng, case, stats, rec, log, ctx=None):
     return
 
   if ctx is not None and ctx["index"] % SWEEP_STRIDE == SWEEP_STRIDE - 1:
-    # sweep runs are spread evenly (every 15th index); 8 consecutive ones sweep one file
+    # sweep runs are spread evenly (every 50th index); 8 consecutive ones sweep one file
     k = ctx["index"] // SWEEP_STRIDE
     run_sweep((k // SWEEP_CHUNKS, k % SWEEP_CHUNKS, ctx["seed"]), stats, rec, log, ctx.get("beat"))
     return
@@ -428,7 +428,7 @@ def describe():
     "rule": ("one simulated run = producer/corpus file (5 formats) -> seeded fault sequence (0 faults in 25 % of sampled runs, else 1-6 of: "
              "eof, flip, overwrite, zero, drop, dup, swap, splice, torn, badutf8, boundary) -> real reader through a tt.py-like stream -> "
              "significant_times, ISD.from_model (uncached+cached) at <= 16 times, SRT/VTT/IMSC writers and LCD filter under seeded valid "
-             "configurations. 8 of every 120 run indices are sweep runs that together enumerate the complete single-fault space of one small "
+             "configurations. 8 of every 400 run indices are sweep runs that together enumerate the complete single-fault space of one small "
              "seeded file (every truncation offset, 4 corruptions per byte, every record drop/dup/adjacent swap); each swept fault is one "
              "evaluation. distinct_nontrivial counts distinct (format, set of fault kinds that were applied, reader/downstream outcome class) "
              "triples; fault-free runs that yield a document are included as one class per format."),
